@@ -4,6 +4,8 @@
 case kinds (all of them are also sent to the Lean model):
   lex   - a string: token stream of the real ply lexer vs the model lexer (no oracle)
   slots - present/absent pattern of argument slots x separator x call `F(..)` / array literal `{..}`
+  slots3 - one present/absent pattern of up to 6 slots x call / array literal, written with each of the three separators:
+          the three formulas side by side must be accepted alike and pass the same values
   num   - numeric literal of form int / dec / dot / pct / pow from digit strings a, b
   str   - quoted literal: quote style q and contents s
   ws    - a C04 tree: as rendered, with white space at token boundaries, with leading / trailing white space
@@ -42,7 +44,11 @@ RULE = ('(lex) token streams of seeded strings, real ply lexer vs model lexer, c
         '(125; `F()` has no slot) x 3 separators x {call `F(..)` of a recording function, array literal `{..}`} (complete, 750) '
         '+ 150 seeded ones of 7..13 slots (a slot present with probability 2/3); slot i holds the literal i or nothing: an '
         'accepted formula must hand over one value per slot, None for an empty one (what F received / the value of the array), a '
-        'rejected one is not judged; (lit) 400 seeded numeric literals of the five forms a, a.b, .b, a%, a^b (digit strings of 1, '
+        'rejected one is not judged; (slots3) the same 125 patterns of 1..6 slots x {call, array literal} (complete, 250 cases, not '
+        'scaled), each case the one pattern written with `,`, with `;` and with `\\` (3 formulas on the parser of (slots)): the three '
+        'outcomes - rejected with its error code, or accepted with what F received / the value of the array - must be equal, so '
+        'a pattern is accepted under all three separators or under none and passes the same list; what that list is is judged by '
+        '(slots); (lit) 400 seeded numeric literals of the five forms a, a.b, .b, a%, a^b (digit strings of 1, '
         '2, 3, 8, 17 or 40 digits, leading zeros allowed; a of a% up to 15 digits; a^b with a of 1..2 digits and b in 0..11), 11 '
         'fixed ones (0, 007, 0.0, 1.50, .0, 0%, 100%, 0^0, 2^10, 123456789012345678.9, thirty 9s) and 20 literal powers on both '
         'sides of the 2^1024 guard and far above it (2^1023 / 1024, 3^646 / 647 / 1023 / 1024, 4^511 / 512, 10^308 / 341 / 342, '
@@ -55,7 +61,9 @@ RULE = ('(lex) token streams of seeded strings, real ply lexer vs model lexer, c
         'separators, NEL, CR, VT, FF, Roman / circled numerals, square metre, half-width katakana) else one of `ab 1`, and 14 '
         'fixed ones (empty, blank, lone / trailing / doubled backslash, each quote inside the other style, 200 characters): the '
         'value must be exactly the characters between the quotes; (ws) 500 formulas of C04\'s tree generator (depth 1..4, no '
-        'error, blank or non-dyadic leaves) on C04\'s re-entrant host, each with minimal parentheses, with seeded blank / two blanks / tab / newline / CR LF (c04.add_space) '
+        'error, blank or non-dyadic leaves; call nodes ID 70 % / ABS 30 %, the variable ovr among the 5 variables) on C04\'s re-entrant host '
+        '(c04.real_parser: ID and ABS the host\'s identity, ovr registered with 999 and answered with 41 by its callVariable listener; '
+        'model environment c04.ENV), each with minimal parentheses, with seeded blank / two blanks / tab / newline / CR LF (c04.add_space) '
         'before and a blank after operators, parentheses and commas, and with a leading blank and a trailing newline: same '
         'outcome (floats within 1e-12 relative); (sep) 200 lists of 1..5 arguments (integers 0..49, 20% quoted texts) + 128 '
         'lists that pair quoted texts spelling a separator or operator (comma, semicolon, two backslashes and a blank, . & % ^) '
@@ -85,7 +93,7 @@ RULE = ('(lex) token streams of seeded strings, real ply lexer vs model lexer, c
         'the listeners recorded, in order. Every case is also answered by the Lean model (lex: `lex`; case: `eval`; the other '
         'kinds: `c04.batch` over all renderings, records only; floats within 1 ulp for (lit) numbers, 4 ulps otherwise, or 1e-9 '
         'relative for (ws); a model record without opinion is passed over, except in (case) where it is a disagreement). '
-        'Seeded counts are those of quick at scale 1 (6855 cases), x scale, x 10 in thorough (47805 cases); complete and fixed '
+        'Seeded counts are those of quick at scale 1 (7105 cases), x scale, x 10 in thorough (48055 cases); complete and fixed '
         'families once. search(): the same families at scale 10, oracle only, up to the first failure. No time or step budget. '
         'Non-trivial = (lex) the real lexer yields at least one token or error; other kinds: at least one rendering is '
         'evaluated without error.')
@@ -96,7 +104,9 @@ TRUSTED = ['the regular-expression engine `re` (each token rule has a hand-writt
            'ulps elsewhere, 1e-9 relative for (ws)) and c06.same_outcome (same error, floats within 1e-12 relative, otherwise '
            'equal values of equal type) as the equality of (ws) outcomes',
            'C04\'s generator, minimal-parenthesis renderer, white-space inserter and host parser (variables, ID, cell listener '
-           'that evaluate further formulas on the same parser) as the source and carrier of the (ws) formulas',
+           'that evaluate further formulas on the same parser; since the ninth round also ABS registered as the identity and the '
+           'variable ovr, registered 999 and answered 41 by the variable listener - c04.ENV holds ABS = (first) and ovr = 41) as the '
+           'source and carrier of the (ws) formulas',
            'the functions F (records and returns its arguments) and G (returns its arguments) registered with set_function, '
            'declared to the model as returning their arguments',
            '(case) the harness\'s own reading of a reference (column letters in bijective base 26 regardless of case, row = number - 1, '
@@ -119,7 +129,10 @@ ASSUMPTIONS = ['white space is blank, tab and newline (kind ws also writes the t
                'judged',
                'the separators `,` `;` `\\` are interchangeable when one of them is used alone, in argument lists and in array '
                'literals (a flat list, also for `{1;2;3}`); `;` between groups separated by `,` or `\\` makes two rows, in an '
-               'argument list as in an array literal; a quoted text that spells a separator or operator is a value',
+               'argument list as in an array literal; a quoted text that spells a separator or operator is a value; for a list '
+               'with empty slots (slots3) interchangeable includes acceptance: a pattern of present and empty slots that one '
+               'separator accepts is accepted with the other two, with the same values passed, and one that is rejected is '
+               'rejected with the same error code by all three',
                'a quoted literal is exactly the characters between its quotes, in either quote style: no escape sequences (a '
                'backslash, also before the closing quote, and the other quote are ordinary characters), no trimming, case folding, '
                'Unicode normalisation or dropping of control / format characters; its own quote does not occur inside',
